@@ -22,6 +22,30 @@ def showErr : PErr → String
   | .metaLoad e => s!"metaload {e}"
   | .format e => s!"format {e}"
 
+def chars (b : Bytes) : List Char := b.map (fun x => Char.ofNat x.toNat)
+def unchars (cs : List Char) : Bytes := cs.map (fun c => UInt8.ofNat c.toNat)
+
+def showBase (b : Base) : String :=
+  s!"{toHex (unchars b.key)} {toHex (unchars b.databaseName)} {toHex (unchars b.databaseKey)} {if b.keyIsSet then "t" else "f"}"
+
+/-- `nil` or six metadata words, followed by the remaining words. -/
+def splitMeta : List String → Option (Option Meta × List String)
+  | "nil" :: rest => some (none, rest)
+  | c :: m :: e :: d :: s :: j :: rest => (parseMeta [c, m, e, d, s, j]).map (fun md => (some md, rest))
+  | _ => none
+
+/-- `<seed>@<hex>` or `<seed>@fail`: the outcome of the codec call, a parameter of the model. -/
+def parseDump (w : String) : Option (Option Bytes) :=
+  match w.splitOn "@" with
+  | [_, "fail"] => some none
+  | [_, hex] => (parseHex hex).map some
+  | _ => none
+
+def showMarshal : Except MErr (Option Bytes) → String
+  | .ok none => "nil"
+  | .ok (some b) => toHex b
+  | .error e => s!"err {e.str}"
+
 def stateless (line : String) : String :=
   match PB.Drv.words line with
   | ["mw", c, m, e, d, s, j, fmt, hex] =>
@@ -39,6 +63,41 @@ def stateless (line : String) : String :=
     match parseMeta [c, m, e, d, s, j] with
     | some md => toHex (genCodeMarshal md)
     | none => "bad-op"
+  | "gmb" :: _cap :: _len :: ms =>
+    -- GenCodeMarshal(buf) with a caller-supplied buffer: the result does not depend on the buffer
+    match parseMeta ms with
+    | some md => toHex (genCodeMarshal md)
+    | none => "bad-op"
+  | "bm" :: rest =>
+    -- Base.Marshal(self, format): `<meta|nil> <format> <seed>@<hex of dsd.Dump(self, format) | fail>`
+    match splitMeta rest with
+    | some (md, [fmt, seedAtDump]) =>
+      (match fmt.toNat?, parseDump seedAtDump with
+      | some f, some dump => showMarshal (baseMarshal md (fun _ => dump) f)
+      | _, _ => "bad-op")
+    | _ => "bad-op"
+  | "mbr" :: rest =>
+    -- Base.MarshalRecord(self): `<meta|nil> <seed>@<hex of dsd.Dump(self, JSON) | fail>`
+    match splitMeta rest with
+    | some (md, [seedAtDump]) =>
+      (match parseDump seedAtDump with
+      | some dump => (match baseMarshalRecord md (fun _ => dump) with
+        | .ok b => toHex b
+        | .error e => s!"err {e.str}")
+      | none => "bad-op")
+    | _ => "bad-op"
+  | ["uwn"] => (match unwrap (α := Unit) (fun _ _ => none) none ⟨Base.fresh, none, ()⟩ with
+      | .ok _ => "ok" | .error .notWrapper => "err not-wrapper" | .error .load => "err load")
+  | ["uw", wdb, wkey, c, m, e, d, s, j, fmt, hex, tkey, load] =>
+    -- Unwrap(wrapper, r): wrapper (db, key, meta, format, data), target key (`-` = none), codec outcome ok|fail
+    match parseHex wdb, parseHex wkey, parseMeta [c, m, e, d, s, j], fmt.toNat?, parseHex hex, parseHex tkey with
+    | some wdb, some wkey, some md, some f, some data, some tkey =>
+      let r : Typed Unit := ⟨Base.fresh.setKey (chars tkey), none, ()⟩
+      (match unwrap (fun _ _ => if load = "ok" then some () else none) (some (⟨chars wdb, chars wkey⟩, ⟨md, f, data⟩)) r with
+      | .ok r' => s!"ok {showBase r'.base} {match r'.md with | some m => showMeta m | none => "nil"}"
+      | .error .notWrapper => "err not-wrapper"
+      | .error .load => "err load")
+    | _, _, _, _, _, _ => "bad-op"
   | ["gu", hex] =>
     match parseHex hex with
     | some b => (match genCodeUnmarshal b with | some m => s!"ok {showMeta m}" | none => "err")
@@ -62,7 +121,9 @@ def stateless (line : String) : String :=
 /-- A wrapper object with history: created once, its metadata changed in place, serialised repeatedly.
     The model has no hidden state: every serialisation reflects the current metadata. -/
 structure St where
-  w : Option (Meta × Nat × Bytes) := none
+  w : Option (Option Meta × Nat × Bytes) := none
+  /-- key fields of a typed record with history (SetKey / ResetKey) -/
+  b : Option Base := none
 
 def showParsed : Parsed → String
   | .ok w => s!"ok {showMeta w.md} {w.format} {toHex w.data}"
@@ -73,17 +134,63 @@ def handle (s : St) (line : String) : St × String :=
   match PB.Drv.words line with
   | ["wnew", c, m, e, d, sc, j, fmt, hex] =>
     match parseMeta [c, m, e, d, sc, j], fmt.toNat?, parseHex hex with
-    | some md, some f, some data => if f < 256 then ({ w := some (md, f, data) }, "ok") else (s, "bad-op")
+    | some md, some f, some data => if f < 256 then ({ s with w := some (some md, f, data) }, "ok") else (s, "bad-op")
     | _, _, _ => (s, "bad-op")
+  | ["held"] => (s, "same")   -- byte strings returned earlier are values: they never change afterwards
+  | ["wparse", hex] =>
+    -- a wrapper that comes from NewRawWrapper (object with history: it has been parsed from a storage form)
+    match parseHex hex with
+    | some b => (match newRawWrapper b with
+      | .ok w => ({ s with w := some (some w.md, w.format, w.data) }, showParsed (.ok w))
+      | r => ({ s with w := none }, showParsed r))
+    | none => (s, "bad-op")
+  | ["wdata", _mode, hex] =>
+    -- the public Data field is replaced / overwritten (how it is done makes no difference to a pure model)
+    match s.w, parseHex hex with
+    | some (md, f, _), some data => ({ s with w := some (md, f, data) }, "ok")
+    | _, _ => (s, "bad-op")
+  | ["wfmt", fmt] =>
+    match s.w, fmt.toNat? with
+    | some (md, _, data), some f => if f < 256 then ({ s with w := some (md, f, data) }, "ok") else (s, "bad-op")
+    | _, _ => (s, "bad-op")
+  | ["wnewnil", fmt, hex] =>
+    match fmt.toNat?, parseHex hex with
+    | some f, some data => if f < 256 then ({ s with w := some (none, f, data) }, "ok") else (s, "bad-op")
+    | _, _ => (s, "bad-op")
+  | ["wm", fmt] =>
+    match s.w, fmt.toNat? with
+    | some (md, f, data), some format =>
+      if format < 256 then (s, showMarshal (wrapperMarshal md (UInt8.ofNat f) data (UInt8.ofNat format))) else (s, "bad-op")
+    | _, _ => (s, "bad-op")
+  | ["wmr"] =>
+    match s.w with
+    | some (md, f, data) => (s, match wrapperMarshalRecord md (UInt8.ofNat f) data with
+        | .ok b => toHex b
+        | .error e => s!"err {e.str}")
+    | none => (s, "bad-op")
+  | ["bnew"] => ({ s with b := some Base.fresh }, "ok")
+  | ["setkey", hex] =>
+    match s.b, parseHex hex with
+    | some b, some k => ({ s with b := some (b.setKey (chars k)) }, "ok")
+    | _, _ => (s, "bad-op")
+  | ["resetkey"] =>
+    match s.b with
+    | some b => ({ s with b := some b.resetKey }, "ok")
+    | none => (s, "bad-op")
+  | ["keyq"] =>
+    match s.b with
+    | some b => (s, showBase b)
+    | none => (s, "bad-op")
   | ["wset", c, m, e, d, sc, j] =>
     -- fields are written through the Meta() pointer; the two flags can only be switched on
     match s.w, parseMeta [c, m, e, d, sc, j] with
-    | some (old, f, data), some md =>
-      ({ w := some ({ md with secret := old.secret || md.secret, crownjewel := old.crownjewel || md.crownjewel }, f, data) }, "ok")
+    | some (some old, f, data), some md =>
+      ({ s with w := some (some { md with secret := old.secret || md.secret, crownjewel := old.crownjewel || md.crownjewel }, f, data) }, "ok")
     | _, _ => (s, "bad-op")
   | ["wrt"] =>
     match s.w with
-    | some (md, f, data) => (s, showParsed (newRawWrapper (marshalWrapper md (UInt8.ofNat f) data)))
+    | some (some md, f, data) => (s, showParsed (newRawWrapper (marshalWrapper md (UInt8.ofNat f) data)))
+    | some (none, _, _) => (s, "err marshal missing-meta")
     | none => (s, "bad-op")
   | _ => (s, stateless line)
 
